@@ -266,9 +266,38 @@ def is_bound_failure(desc):
             or "is not currently supported by kani" in d)
 
 
+def resolve_unwindset(t0dir, inst):
+    """inst["unwindset"] = [(substring of the loop's function name, bound), ...] -> ["--unwindset", "id:n,id:n"].
+    Loop ids contain a per-build hash, so they are read from the goto binary of THIS build (cbmc --show-loops)."""
+    spec = inst.get("unwindset")
+    if not spec:
+        return []
+    cands = []
+    for root, _dirs, files in os.walk(os.path.join(t0dir, "kani")):
+        for f in files:
+            if f.endswith(inst["fn"] + ".out"):
+                cands.append(os.path.join(root, f))
+    if not cands:
+        raise Inconclusive("goto binary for %s not found (needed for the per-loop unwind bound)" % inst["fn"])
+    out = subprocess.run(["cbmc", "--show-loops", sorted(cands)[0]], stdout=subprocess.PIPE, stderr=subprocess.DEVNULL, text=True).stdout
+    pairs = []
+    loops = re.findall(r"^Loop (\S+):\n\s+file (.*?) function (.*)$", out, re.M)
+    for sub, bound in spec:
+        hit = [lid for lid, _f, fn in loops if sub in fn]
+        if not hit:
+            raise Inconclusive("no loop in a function matching %r found in %s (code refactored?)" % (sub, inst["fn"]))
+        pairs += ["%s:%d" % (lid, bound) for lid in hit]
+    return ["--unwindset", ",".join(pairs)]
+
+
 def run_instance(src, t0dir, workdir, inst, prop, extra_args=None, tag=""):
     """One cargo-kani job for one harness instance. Returns result dict."""
     name = inst["name"]
+    try:
+        inst["cbmc_args"] = (inst.get("cbmc_args_base") or []) + resolve_unwindset(t0dir, inst)
+    except Inconclusive as e:
+        return {"name": name, "harness": inst["fq"], "verdict": "INCONCLUSIVE", "reason": str(e), "wall_s": 0, "solver_s": None, "checks": 0,
+                "cover": "0/0", "peak_rss_kb": 0, "bounds": inst.get("bounds", ""), "lemma": inst.get("lemma", ""), "log_tail": ""}
     tdir = os.path.join(workdir, "t_" + name + tag)
     subprocess.check_call(["cp", "-a", t0dir, tdir])
     fq = inst["fq"]
@@ -411,6 +440,31 @@ def select_instances(prop, tier, seed, only):
     return out
 
 
+def only_skips_extra(only):
+    return bool(only) and "extra" not in only
+
+
+def native_run_tests(src, workdir, filt, tag):
+    """build the scratch copy's unit tests natively (same flow as the playback replay, dev profile) and run those matching filt;
+    returns the log text"""
+    env = dict(ENV)
+    pb = os.path.join(KANI_HOME, "playback")
+    flags = ["-Coverflow-checks=on", "-Zunstable-options", "-Ztrim-diagnostic-paths=no", "-Zhuman_readable_cgu_names", "-Zalways-encode-mir",
+             "--cfg=kani", "-Zcrate-attr=feature(register_tool)", "-Zcrate-attr=register_tool(kanitool)", "--force-warn", "unstable_features",
+             "--sysroot", pb, "-L", pb + "/lib", "--extern", "force:kani", "--extern", "noprelude,nounused:std=" + pb + "/lib/libstd.rlib"]
+    env["CARGO_ENCODED_RUSTFLAGS"] = "\x1f".join(flags)
+    env["CARGO_TERM_PROGRESS_WHEN"] = "never"
+    env["RUSTC"] = os.path.join(KANI_HOME, "bin", "kani-compiler")
+    env["RUST_BACKTRACE"] = "0"
+    env["CARGO_TARGET_DIR"] = os.path.join(workdir, "t_native")
+    cmd = [os.path.join(KANI_HOME, "toolchain", "bin", "cargo"), "test", "--lib", "--target", "x86_64-unknown-linux-gnu",
+           "-Zhost-config", "-Ztarget-applies-to-host", '--config=host.rustflags=["--cfg=kani_host"]', "--",
+           "--test-threads", "1", "--nocapture", filt]
+    lf = os.path.join(workdir, "logs", "native_%s.log" % tag)
+    run_cmd(cmd, src, lf, timeout=2400, env=env)
+    return open(lf, errors="replace").read()
+
+
 def check_property(prop_id, prop, tier, seed, only=None, jobs=None):
     t_start = time.time()
     all_roles = set(prop.get("kf_roles_all", prop.get("kf_roles", [])))
@@ -426,12 +480,14 @@ def check_property(prop_id, prop, tier, seed, only=None, jobs=None):
         cuts = apply_cuts(src, prop, tier)
         # witness harnesses run only for OPEN known findings
         insts = [i for i in insts if not i.get("kf_witness") or i["kf_witness"] in open_roles]
-        if not insts:
+        if not insts and not (only and "extra" in only):
             raise Inconclusive("no harness instances selected")
         log("[%s] tier=%s seed=%d: %d harness instances, building with kani-compiler ..." % (prop_id, tier, seed, len(insts)))
         t0dir = os.path.join(scratch, "t0")
-        bw = build_once(src, t0dir, os.path.join(scratch, "logs"), [i["fq"] for i in insts])
+        bw = build_once(src, t0dir, os.path.join(scratch, "logs"), [i["fq"] for i in insts]) if insts else 0
         log("[%s] build %.0f s" % (prop_id, bw))
+        if os.environ.get("VERIF_BUILD_ONLY"):
+            raise Inconclusive("VERIF_BUILD_ONLY set: stopping after the build (scratch kept with VERIF_KEEP)")
         njobs = jobs or prop.get("jobs", {}).get(tier, 8)
         results = []
         with ThreadPoolExecutor(max_workers=njobs) as ex:
@@ -506,6 +562,8 @@ def check_property(prop_id, prop, tier, seed, only=None, jobs=None):
                     res["reason"] = "solver counter-example did not reproduce natively: %s | %s" % (
                         res["reason"], "; ".join("%s: dev=%s rel=%s %s" % (t["check"][:40], t["native_dev"], t["native_release"], t["native_dev_msg"][-200:]) for t in res["replay"]["tests"]))
                     status["inconclusive"].append(res)
+        if prop.get("extra") and not only_skips_extra(only):
+            prop["extra"](prop_id, scratch, src, tier, seed, status)
     except Inconclusive as e:
         log("[%s] INCONCLUSIVE: %s" % (prop_id, e))
         status["inconclusive"].append({"name": "(setup)", "reason": str(e), "verdict": "INCONCLUSIVE"})
